@@ -67,6 +67,13 @@ def generate(g, tier):
                 for sib in r.sample([stem + '.tmp', out + '.tmp', out + '.bak', out + '~', stem + '.part', '.' + out.split('/')[-1] + '.swp', stem, stem + '.txt.new'], 2):
                     if sib not in pre and sib != out and not any(i['output'] == sib for i in invs): pre[sib] = 'SIBLING ' + sib
             stale = r.choice([None, 'STALE PAYLOAD\n', ''])
+            if g.chance(0.45):
+                # what lies at the output path may be ANY bytes: the payload this very compilation produces (nothing to change), the
+                # same lines with other line endings or a final newline, a prefix or an extension of it, bytes that are no text at all
+                want = '\n'.join(m['out']) if m.get('expect') == 'ok' else 'STRING old\nENTER'
+                stale = r.choice([want, want + '\n', dict(hex=want.replace('\n', '\r\n').encode().hex()), dict(hex=want.replace('\n', '\r').encode().hex()),
+                                  dict(hex=(want + '\r\n').encode().hex()), want + '\nSTRING more', want[:max(0, len(want) // 2)], dict(hex='fffe8000ff41'),
+                                  dict(hex=want.encode('utf-16').hex()), dict(hex=('\ufeff' + want).encode().hex()), ' ' + want, want.lower()])
             if stale is not None and out not in pre and not any(i['output'] == out for i in invs): pre[out] = stale
             inv = dict(cmd='compile', file=src, output=out)
             if inv_limit is not None: inv['stack_limit'] = inv_limit
